@@ -1,9 +1,68 @@
 import UF.Driver.Decode
+import UF.Model.DnsRewriteParse
+import UF.Spec.DnsRewriteShape
 /- Ops of work group H (see notes/AGENT_GUIDE.md). Return `none` for ops of other groups. -/
 namespace UF.Ops
+open UF
+
+/-! Encoders mirroring harness/wire.go (`waddr`, `wvalue`, `wrewrite`, `whostrule`, `wrequest`). -/
+
+def encAddr (a : Addr) : String := outList [outBool a.is4, toString a.val, outBytes a.zone]
+
+def encValue : RRVal → String
+  | .none => "_"
+  | .addr a => outList ["addr", outBool a.is4, toString a.val]
+  | .str s => outList ["str", outBytes s]
+  | .mx p e => outList ["mx", toString p, outBytes e]
+  | .srv p w po t => outList ["srv", toString p, toString w, toString po, outBytes t]
+  | .svcb p t ps =>
+    let params := match ps with
+      | none => "_"
+      | some kv => outList (kv.map fun (k, v) => outList [outBytes k, outBytes v])
+    outList ["svcb", toString p, outBytes t, params]
+
+def encRewrite (d : DnsRewrite) : String :=
+  outList [toString d.rcode, toString d.rrType, outBytes d.newCNAME, encValue d.value]
+
+/-- Answers are single tokens: blanks of the wire form become commas (as `tok` in the harness). -/
+def tok (s : String) : String := s.map fun c => if c == ' ' then ',' else c
+
+def encExcept {α} (enc : α → String) : Except HErr α → String
+  | .ok x => tok (enc x)
+  | .error .reject => "err"
+  | .error .panic => "PANIC"
+
+/-- `c10.dnsrw <value> <addr table>`: model = full dump of `loadDNSRewrite`; spec = the same
+    answer if it has the published shape, `BADSHAPE` otherwise. -/
+def opC10Dnsrw (args : List W) : String :=
+  match args with
+  | [v, addrs] =>
+    match v.bytes?, decAddrTable addrs with
+    | some v, some addrs =>
+      if !dnsRewriteInDomain v then "ood ood" else
+      let r := loadDNSRewrite (mkExt [] addrs []) v
+      let m := encExcept encRewrite r
+      let s := match r with
+        | .ok rw => if shapeOK rw then m else "BADSHAPE"
+        | _ => m
+      m ++ " " ++ s
+    | _, _ => "bad-decode"
+  | _ => "bad-arity"
+
+/-- `c10.shape <rewrite>`: the shape predicate on a rewrite the IMPLEMENTATION returned
+    (the harness expects `T`). -/
+def opC10Shape (args : List W) : String :=
+  match args with
+  | [rw] =>
+    match decRewrite rw with
+    | some (some rw) => let b := outBool (shapeOK rw); b ++ " " ++ b
+    | _ => "bad-decode"
+  | _ => "bad-arity"
 
 def dispatchH (op : String) (args : List W) : Option String :=
-  match op, args with
-  | _, _ => none
+  match op with
+  | "c10.dnsrw" => some (opC10Dnsrw args)
+  | "c10.shape" => some (opC10Shape args)
+  | _ => none
 
 end UF.Ops
